@@ -139,6 +139,18 @@ type RWMutex struct {
 	readers        int
 	writer         bool
 	waitingWriters int
+	// free-running mode bookkeeping (atomic): lets a sequential harness assert that an API call
+	// released every lock it took before the next call could block on it forever
+	realReaders int32
+	realWriter  int32
+}
+
+// Held reports how many read locks and whether the write lock are currently held.
+func (m *RWMutex) Held() (readers int, writer bool) {
+	if cur() != nil {
+		return m.readers, m.writer
+	}
+	return int(atomic.LoadInt32(&m.realReaders)), atomic.LoadInt32(&m.realWriter) != 0
 }
 
 func (m *RWMutex) RLock() {
@@ -148,6 +160,7 @@ func (m *RWMutex) RLock() {
 		return
 	}
 	m.real.RLock()
+	atomic.AddInt32(&m.realReaders, 1)
 }
 
 func (m *RWMutex) RUnlock() {
@@ -156,6 +169,7 @@ func (m *RWMutex) RUnlock() {
 		h.Yield("RWMutex.RUnlock", nil)
 		return
 	}
+	atomic.AddInt32(&m.realReaders, -1)
 	m.real.RUnlock()
 }
 
@@ -170,6 +184,7 @@ func (m *RWMutex) Lock() {
 		return
 	}
 	m.real.Lock()
+	atomic.StoreInt32(&m.realWriter, 1)
 }
 
 func (m *RWMutex) Unlock() {
@@ -178,6 +193,7 @@ func (m *RWMutex) Unlock() {
 		h.Yield("RWMutex.Unlock", nil)
 		return
 	}
+	atomic.StoreInt32(&m.realWriter, 0)
 	m.real.Unlock()
 }
 
